@@ -70,6 +70,10 @@ CLAIMED = {
          "Decides shape-level encodability: every way Encode can fail or panic is enumerated; each is a write that cannot fail, the caller's writer, impossible for a File whose init succeeded, or excluded by the tables for every hosted message type. The one origin that cannot be discharged (UTF-8 check vs. arbitrary decoded bytes) is a known finding. Content equality after re-encoding and the fixpoint clause are not decided.",
          "Trusted: bytes.Buffer/hash writes never fail; C15 and C03 results; reflect panic conditions. Not decided: equality of re-decoded content, second round trip, nil container elements.",
          "DESIGN.md 4 C07"),
+ "C02": ("other", "exact folding of the definition validator over (profile class x base-type byte x size) joined with the consumer arms read from syntax (arm/table agreement, sign-extension obligation), byte-order discipline, field-target, skip-by-size, developer-section, scratch-escape and widening shape rules",
+         "The statement is value-level and is not decided as a whole. Decided are eight structural necessary conditions; each one, when broken, makes some decoded value differ from its wire value (wrong byte order, wrong width or setter, missing sign extension, write to the wrong struct field, unread bytes, skipped developer section, aliasing the scratch buffer, destroyed narrow big-endian fields).",
+         "Trusted: evaluator transfer functions; reflect setter semantics; builtin copy. Not decided: equality of every decoded value with its wire value; narrow-coordinate sign padding; string termination; developer-field content.",
+         "DESIGN.md 4 C02"),
 }
 
 NOT_APPLICABLE = {
